@@ -19,8 +19,8 @@ pub struct Plan {
 pub fn plan(tier: &str) -> Plan {
     match tier {
         "thorough" => Plan { runs: 1 + 6 * 2002, sequences_per_run: 160 },
-        "selfcheck" => Plan { runs: 1 + 6 * 6, sequences_per_run: 40 },
-        _ => Plan { runs: 1 + 6 * 66, sequences_per_run: 100 },
+        "selfcheck" => Plan { runs: 1 + 6 * 2002, sequences_per_run: 40 },
+        _ => Plan { runs: 1 + 6 * 130, sequences_per_run: 120 },
     }
 }
 
